@@ -7,12 +7,28 @@ pid = slot[:3]
 src = (sys.argv[2] if len(sys.argv) > 2 else "/tmp/seed_out") + f"/{slot}"
 existing = [int(os.path.basename(x).split("-")[1]) for x in glob.glob(os.path.join(VERIF, "seeded", f"{pid}-*"))]
 offset = int(sys.argv[3]) if len(sys.argv) > 3 else (max(existing) if existing and len(sys.argv) > 2 else 0)
+def _body(path):
+    """the changed lines of a patch, whitespace-normalised: two deliveries with the same body are the same change"""
+    return tuple(" ".join(l.split()) for l in open(path, errors="replace") if l[:1] in "+-" and not l.startswith(("+++", "---")) and l[1:].strip()
+                 and not l[1:].strip().startswith("#"))
+
+
+known = {}
+for d0 in glob.glob(os.path.join(VERIF, "seeded", "C*-*")):
+    if os.path.exists(os.path.join(d0, "patch.diff")):
+        known.setdefault(_body(os.path.join(d0, "patch.diff")), os.path.basename(d0))
+nxt = (max(existing) if existing else 0)
 for patch in sorted(glob.glob(f"{src}/patch*.diff")):
     k = os.path.basename(patch)[5:-5]
+    dup = known.get(_body(patch))
+    if dup:
+        print(f"skipped {patch}: same change as {dup}")
+        continue
     demo, notes = f"{src}/demo{k}.py", f"{src}/notes{k}.md"
     if not os.path.exists(demo):
         print("no demo for", patch); continue
-    d = os.path.join(VERIF, "seeded", f"{pid}-{int(k) + offset}")
+    nxt += 1
+    d = os.path.join(VERIF, "seeded", f"{pid}-{nxt if len(sys.argv) > 2 else int(k) + offset}")
     os.makedirs(d, exist_ok=True)
     shutil.copy(patch, os.path.join(d, "patch.diff"))
     shutil.copy(demo, os.path.join(d, "demo.py"))
